@@ -171,7 +171,7 @@ func (g *sgen) fAug2() {
 	g.feat("modules-augmenting-one-node")
 	k := 2 + g.r.Intn(2)
 	target := g.pick([]string{"/b:c", "/b:c/b:l", "/b:c/b:ch", "/b:c/b:ch/b:a2", "/b:r/b:input", "/b:c/b:ch/b:a1"})
-	same := g.chance(0.6)
+	same := g.chance(0.4)
 	for i := 0; i < k; i++ {
 		n := g.modName("a")
 		child := "z"
@@ -306,18 +306,36 @@ func (g *sgen) fMany() {
 	}
 }
 
-// linking errors: which missing import is reported depends on the order of the walk.
+// linking errors: include() stops at the first missing module and never revisits a module, so
+// which missing imports are reported depends on the order of the walk (chains of importers).
 func (g *sgen) fMissing() {
 	g.feat("missing-imports")
 	k := 2 + g.r.Intn(3)
+	var prev []string
 	for i := 0; i < k; i++ {
 		n := g.modName("w")
-		miss := fmt.Sprintf("gone%d", g.r.Intn(3))
-		extra := fmt.Sprintf("  import %s { prefix g; }\n", miss)
-		if g.chance(0.3) {
-			extra = fmt.Sprintf("  include %s;\n", miss)
+		var extra strings.Builder
+		// import an earlier module of the chain first or last, around the missing ones
+		chain := ""
+		if len(prev) > 0 && g.chance(0.7) {
+			chain = fmt.Sprintf("  import %s { prefix c%d; }\n", prev[g.r.Intn(len(prev))], i)
 		}
-		g.add(n, head(n, extra)+"  leaf ok { type string; }\n}\n")
+		if g.chance(0.5) {
+			extra.WriteString(chain)
+			chain = ""
+		}
+		nm := 1 + g.r.Intn(2)
+		for j := 0; j < nm; j++ {
+			miss := fmt.Sprintf("gone%d", g.r.Intn(4))
+			if g.chance(0.25) {
+				fmt.Fprintf(&extra, "  include %s;\n", miss)
+			} else {
+				fmt.Fprintf(&extra, "  import %s { prefix g%d; }\n", miss, j)
+			}
+		}
+		extra.WriteString(chain)
+		g.add(n, head(n, extra.String())+"  leaf ok { type string; }\n}\n")
+		prev = append(prev, n)
 	}
 }
 
@@ -351,7 +369,7 @@ func (g *sgen) fSubCircle() {
 	g.add(o, fmt.Sprintf("module %s {\n  namespace \"urn:%s\";\n  prefix %s;\n  include %s;\n  include %s;\n  leaf lo { type string; }\n}\n", o, o, o, s1, s2))
 	g.add(s1, fmt.Sprintf("submodule %s {\n  belongs-to %s { prefix %s; }\n  include %s;\n  leaf l1 { type string; }\n  grouping g1 { leaf gg { type string; } }\n}\n", s1, o, o, s2))
 	g.add(s2, fmt.Sprintf("submodule %s {\n  belongs-to %s { prefix %s; }\n  include %s;\n  leaf l2 { type string; }\n  container c2 { uses g1; }\n}\n", s2, o, o, s1))
-	g.s.IgnoreCircular = g.chance(0.5)
+	g.s.IgnoreCircular = g.chance(0.7)
 }
 
 // modules sharing a prefix or a namespace.
@@ -375,14 +393,27 @@ func (g *sgen) fShared() {
 func genSet(r *rand.Rand) *srcSet {
 	g := &sgen{r: r, s: &srcSet{}, used: map[string]bool{}, feats: map[string]bool{}}
 	g.base()
-	fs := []func(){g.fIdent, g.fDevPair, g.fDev2, g.fAug2, g.fAugChain, g.fRevs, g.fPosless, g.fSamePos, g.fMany, g.fMissing,
-		g.fForeignInclude, g.fCycle, g.fSubCircle, g.fShared, g.fDev2, g.fAug2, g.fPosless}
+	// features that may leave the set clean are drawn three times as often as those that always
+	// end in errors
+	clean := []func(){g.fIdent, g.fDevPair, g.fDev2, g.fAug2, g.fRevs, g.fForeignInclude, g.fSubCircle, g.fShared}
+	faulty := []func(){g.fAugChain, g.fPosless, g.fSamePos, g.fMany, g.fMissing, g.fCycle}
 	k := 1 + r.Intn(3)
 	if r.Float64() < 0.15 {
 		k += 2
 	}
-	for _, i := range r.Perm(len(fs))[:k] {
+	var fs []func()
+	if r.Float64() < 0.55 {
+		fs = clean
+	} else {
+		fs = append(append([]func(){}, clean...), faulty...)
+		fs = append(fs, g.fPosless, g.fAug2, g.fDev2)
+	}
+	for _, i := range r.Perm(len(fs)) {
+		if k == 0 {
+			break
+		}
 		fs[i]()
+		k--
 	}
 	// shuffle load order
 	idx := r.Perm(len(g.s.Names))
